@@ -1734,7 +1734,11 @@ func (idx *MergeSetIndex) GetDeletedTSIDs() *uint64set.Set {
 	if idx.DeleteMergeSet() == nil {
 		return &uint64set.Set{}
 	}
-	return idx.DeleteMergeSet().deletedTSIDs.Load().(*uint64set.Set)
+	// the deleted-tsid index may be attached before LoadDeletedTSIDs has run on it
+	if deleted, ok := idx.DeleteMergeSet().deletedTSIDs.Load().(*uint64set.Set); ok && deleted != nil {
+		return deleted
+	}
+	return &uint64set.Set{}
 }
 
 func (idx *MergeSetIndex) RpName() string {
